@@ -92,6 +92,8 @@ structure Frame where
   len : Nat
   /-- the frame has non-blank index text (trace input of the put that made it) -/
   idx : Bool := true
+  /-- `canonical_encoding == Zstd` (UTF-8 payloads; an empty stored range then fails to decode) -/
+  zstd : Bool := false
 deriving DecidableEq, Repr, Inhabited
 
 /-- an embedding as the model sees it: dimension and token -/
@@ -117,6 +119,8 @@ structure Ins where
   emb : Option Emb
   /-- trace input: the entry has non-blank index text (search_text, or readable content) -/
   idx : Bool
+  /-- `canonical_encoding == Zstd` -/
+  zstd : Bool := false
 deriving DecidableEq, Repr, Inhabited
 
 inductive Entry where
@@ -173,6 +177,9 @@ structure Mem where
   vec : Option (List VecEnt) := none
   /-- what `load_vec_index_from_manifest` would load: the persisted artifact (`none` = no bytes) -/
   pVec : Option (List VecEnt) := none
+  /-- `toc.indexes.vec` existence / dimension as last written to the file with the TOC -/
+  pVecMan : Bool := false
+  pVecDim : Nat := 0
   /-- `toc.time_index` and the entries it points to, sorted by `(ts, id)` -/
   time : Option (List (Int × Nat)) := none
   lexEnabled : Bool := true
@@ -200,6 +207,10 @@ structure Mem where
   /-- `batch_opts`: `some disable_auto_checkpoint` -/
   batch : Option Bool := none
 deriving Repr, Inhabited
+
+/-- `rewrite_toc_footer`: what lives only in the in-memory TOC reaches the file -/
+def Mem.persistToc (m : Mem) : Mem :=
+  { m with pQueue := m.queue, pVecMan := m.vecManifest, pVecDim := m.vecDim }
 
 def WAL_OFFSET : Nat := 4096
 def Mem.base (m : Mem) : Nat := WAL_OFFSET + m.walSize
@@ -285,12 +296,12 @@ def fallbackParent (frames : List Frame) (inserted : List Nat) : Option Nat :=
     | none => false)
 
 /-- the frame an Insert entry produces (everything except status marking of the predecessor) -/
-def mkFrame (id : Nat) (e : Ins) (content : String) (off len : Nat) (parent : Option Nat) : Frame :=
+def mkFrame (id : Nat) (e : Ins) (content : String) (off len : Nat) (parent : Option Nat) (zstd : Bool) : Frame :=
   { id := id, ts := e.ts, uri := e.uri.getD s!"mv2://frames/{id}", kind := e.kind, track := e.track,
     tags := e.tags, labels := e.labels, role := e.role, status := .active, parent := parent,
     supersedes := e.supersedes, supersededBy := none, chunkIndex := e.chunkIndex,
     chunkCount := e.chunkCount, manifest := e.manifest, content := content, off := off, len := len,
-    idx := e.idx }
+    idx := e.idx, zstd := zstd }
 
 /-- one record of the first pass of `apply_records` -/
 def applyOne (st : ApSt) (r : Nat × Entry) : Option ApSt :=
@@ -303,16 +314,16 @@ def applyOne (st : ApSt) (r : Nat × Entry) : Option ApSt :=
   | .insert e =>
     let id := st.frames.length
     -- payload placement: reuse the source frame's bytes, or write at the cursor
-    let placed : Option (String × Nat × Nat × Nat × Nat) :=
+    let placed : Option (String × Nat × Nat × Nat × Nat × Bool) :=
       match e.reuseFrom with
       | some src =>
         match st.frames[src]? with
         | none => none
-        | some s => some (s.content, s.off, s.len, st.cursor, st.payloadEnd)
-      | none => some (e.content, st.cursor, e.len, st.cursor + e.len, max st.payloadEnd (st.cursor + e.len))
+        | some s => some (s.content, s.off, s.len, st.cursor, st.payloadEnd, s.zstd)
+      | none => some (e.content, st.cursor, e.len, st.cursor + e.len, max st.payloadEnd (st.cursor + e.len), e.zstd)
     match placed with
     | none => none
-    | some (content, off, len, cursor', pe') =>
+    | some (content, off, len, cursor', pe', zstd) =>
       let parent : Option Nat :=
         match e.parentSeq with
         | none => none
@@ -320,7 +331,7 @@ def applyOne (st : ApSt) (r : Nat × Entry) : Option ApSt :=
           match st.seqMap.lookup ps with
           | some fid => some fid
           | none => if e.role == .chunk then fallbackParent st.frames st.inserted else none
-      let frame := mkFrame id e content off len parent
+      let frame := mkFrame id e content off len parent zstd
       let indexed := st.engine && e.idx
       let st1 : ApSt :=
         { st with
@@ -407,8 +418,8 @@ def timeEntries (frames : List Frame) : List (Int × Nat) :=
 def Mem.flushTantivy (m : Mem) (ft : Nat) : Mem :=
   if !m.tantivyDirty then m else
   if m.engine then
-    { m with tantivyDirty := false, seq := m.seq + 1, pending := m.pending ++ [(m.seq + 1, .lex)],
-             tantivySegs := true, pQueue := m.queue, footer := max m.footer ft }
+    { m with tantivyDirty := false, seq := m.seq + 1, pending := m.pending ++ [(m.seq + 1, Entry.lex)],
+             tantivySegs := true, footer := max m.footer ft }.persistToc
   else { m with tantivyDirty := false }
 
 /-- `rebuild_tantivy_engine`: the engine is reset and every ACTIVE frame with index text is added -/
@@ -444,12 +455,11 @@ def Mem.rebuildIndexes (m : Mem) (newEmbs : List VecEnt) (inserted : List Nat) (
   -- memories track / sketch track are persisted with the rebuilt TOC
   { m3 with
     pCards := if m3.cards.isEmpty then none else some (m3.cards, m3.enrRecs)
-    footer := max m3.footer ft
-    pQueue := m3.queue }
+    footer := max m3.footer ft }.persistToc
 
 /-- `record_checkpoint` + the bookkeeping at the end of a commit -/
 def Mem.checkpoint (m : Mem) : Mem :=
-  { m with pending := [], pendingInserts := 0, dirty := false, pQueue := m.queue }
+  { m with pending := [], pendingInserts := 0, dirty := false }.persistToc
 
 /-- `commit_from_records`; `none` = the real function returned an error (nothing is changed: the
     staging copy is discarded).  `ft` = footer after the commit (trace input). -/
@@ -546,11 +556,16 @@ structure PutArgs where
   q : Bool := false
   /-- trace: number of memory cards the triplet extractor produced -/
   nc : Nat := 0
+  /-- the parent payload is stored zstd-compressed (valid UTF-8 and compression level ≠ 0) -/
+  zstd : Bool := false
+  /-- dimensions of ALL chunk embeddings the caller passed (`put_with_chunk_embeddings`), whether or
+      not a chunk exists for them: the dimension contract looks at every one -/
+  cdims : List Nat := []
 deriving DecidableEq, Repr, Inhabited
 
 def embDims (a : PutArgs) : List Nat :=
   (match a.emb with | some (d, _) => if d = 0 then [] else [d] | none => []) ++
-  a.chunks.filterMap (fun c => match c.emb with | some (d, _) => if d = 0 then none else some d | none => none)
+  a.cdims.filter (· ≠ 0)
 
 /-- the WAL records one accepted `put_internal` appends: the parent entry then the chunk entries
     (`parent_sequence` = the parent's sequence number) -/
@@ -562,18 +577,18 @@ def putRecords (seq0 : Nat) (a : PutArgs) (supersedes reuse : Option Nat) : List
       chunkCount := if n = 0 then none else some n,
       manifest := if n = 0 then none else some n,
       supersedes := supersedes, reuseFrom := reuse, content := a.content, len := a.len, emb := a.emb,
-      idx := a.st }
+      idx := a.st, zstd := a.zstd }
   (seq0 + 1, Entry.insert parent) ::
   (a.chunks.zipIdx.map fun (c, i) =>
     (seq0 + 2 + i, Entry.insert
       { ts := a.ts, uri := a.uri.map (fun u => s!"{u}#page-{i + 1}"), kind := a.kind, track := a.track,
         tags := a.tags, labels := a.labels, role := .chunk, parentSeq := some (seq0 + 1),
         chunkIndex := some i, chunkCount := some n, manifest := none, supersedes := none,
-        reuseFrom := none, content := c.content, len := c.len, emb := c.emb, idx := true }))
+        reuseFrom := none, content := c.content, len := c.len, emb := c.emb, idx := true, zstd := true }))
 
 /-- WAL growth / pre-sizing rewrites the TOC (and with it the enrichment queue) -/
 def Mem.setWalSize (m : Mem) (ws : Nat) : Mem :=
-  if ws = m.walSize then m else { m with walSize := ws, pQueue := m.queue }
+  if ws = m.walSize then m else { m with walSize := ws }.persistToc
 
 /-- the automatic checkpoint at the end of put/delete: `commit()?` -/
 def Mem.autoCommit (m : Mem) (t : Trace) : Mem :=
@@ -629,7 +644,7 @@ def chunkLe (a b : Frame) : Bool :=
 /-- what reading the frame's own stored payload gives: after `vacuum` zeroed the payload pointer of
     an inactive frame the stored bytes are gone and the canonical-length check fails (`err`) -/
 def ownContent (f : Frame) : String :=
-  if f.len = 0 ∧ f.content ≠ "E" then "err" else f.content
+  if f.len = 0 ∧ (f.content ≠ "E" ∨ f.zstd) then "err" else f.content
 
 def canon (frames : List Frame) (f : Frame) : String :=
   if isManifestDoc f then
@@ -656,6 +671,7 @@ structure UpdArgs where
   st : Bool := true
   q : Bool := false
   nc : Nat := 0
+  zstd : Bool := false
 deriving DecidableEq, Repr, Inhabited
 
 /-- option inheritance of `update_frame` -/
@@ -672,7 +688,7 @@ def inheritArgs (old : Frame) (u : UpdArgs) (emb : Option Emb) : PutArgs :=
     plen := match u.payload with | some p => p.2.2.1 | none => 0
     emb := emb
     chunks := match u.payload with | some p => p.2.2.2 | none => []
-    ii := u.ii, st := u.st, q := u.q, nc := u.nc }
+    ii := u.ii, st := u.st, q := u.q, nc := u.nc, zstd := u.zstd }
 
 /-- `update_frame` -/
 def Mem.update (m : Mem) (id : Nat) (u : UpdArgs) (t : Trace) : Mem × Out :=
@@ -736,8 +752,10 @@ def Mem.openFrom (m : Mem) (ft : Nat) : Mem :=
       -- `init_tantivy`: trusts embedded segments; without them the engine is rebuilt from the frames
       tantivyDirty := !m.tantivySegs
       lexDocs := if m.tantivySegs then m.lexDocs else fullLexRebuild m.frames
-      vecEnabled := m.vecManifest
-      vec := if m.vecManifest then m.pVec else none
+      vecEnabled := m.pVecMan
+      vecManifest := m.pVecMan
+      vecDim := m.pVecDim
+      vec := if m.pVecMan then m.pVec else none
       queue := m.pQueue
       cards := [], enrRecs := [], sketch := [] }
   -- `recover_wal`
@@ -796,8 +814,7 @@ def Mem.endBatch (m : Mem) : Mem × Out := ({ m with batch := none }, .ok)
 /-- `apply_ticket` -/
 def Mem.applyTicket (m : Mem) (seqNo : Int) (cap : Nat) (issuerBlank issuerFree : Bool) : Mem × Out :=
   if seqNo ≤ m.ticketSeq then (m, .err "ticket-seq") else
-  ({ m with ticketSeq := seqNo, ticketCap := cap, hasIssuer := !issuerBlank, freeTierIssuer := issuerFree,
-            pQueue := m.queue }, .ok)
+  ({ m with ticketSeq := seqNo, ticketCap := cap, hasIssuer := !issuerBlank, freeTierIssuer := issuerFree }.persistToc, .ok)
 
 /-- `frame_by_uri`: newest active frame with the URI, else newest frame with the URI -/
 def frameByUri (frames : List Frame) (uri : String) : Option Frame :=
